@@ -1,32 +1,42 @@
 //! C20: "documented capacity limits are enforced exactly at the limit" -- decided AT the limit, in both directions.
 //!
 //! The step harnesses of the registries run with vectors of 3-4 elements, where a comparison against a documented
-//! maximum of 5 / 15 is on the path but never true. Here the stored list is declared with MAX-1 / MAX ARBITRARY
-//! pairwise different elements (profiles whose vectors hold MAX+1 elements), so that an off-by-one in either
-//! direction is decided:
-//!   `<fn>_<limit>_at_limit`     the list holds MAX-2..=MAX elements: whenever the addition returns normally the list
-//!                               held fewer than MAX elements before and holds at most MAX after (clauses
-//!                               `C20.<registry>.<fn>.<limit>_limit_exact.not_exceeded[_in_storage]`);
-//!   `<fn>_<limit>_below_limit`  the list holds MAX-1 elements and every other precondition of the addition is met:
-//!                               the addition returns normally. Every trap is reported by the model's trap observer
-//!                               (feature `traphook`): the limit error under `...limit_exact.reachable`, any other trap
-//!                               under `...accepted_below_the_limit` (registered must-succeed: Rust panics count too).
-//! Nothing else is re-proved here (exact deltas, events, frames are the step harnesses' business), which keeps the
-//! big-vector profiles affordable.
+//! maximum of 5 / 10 / 15 is on the path but never true. Here the stored list is declared with MAX-1 / MAX elements
+//! (profiles whose vectors hold MAX+1 elements), so that an off-by-one in either direction is decided:
+//!   `<fn>_<limit>_at_limit`     the list holds MAX elements (or the argument list MAX+1): the addition NEVER returns
+//!                               normally, whatever else is stored -- clause
+//!                               `C20.<registry>.<fn>.<limit>_limit_exact.not_exceeded`;
+//!   `<fn>_<limit>_below_limit`  the list holds MAX-1 elements (or the argument list exactly MAX) and every other
+//!                               precondition of the addition is met: the addition returns normally. Every trap is
+//!                               reported by the model's trap observer (feature `traphook`): the limit error under
+//!                               `...limit_exact.reachable`, any other trap under `...accepted_below_the_limit`
+//!                               (registered must-succeed: Rust panics count too); after the return the stored list
+//!                               holds at most MAX elements (`...limit_exact.not_exceeded_in_storage`).
+//! Nothing else is re-proved here (exact deltas, events, frames are the step harnesses' business).
+//!
+//! What keeps the big-vector profiles affordable (measured, see checks/reg_limits.py):
+//!   * list LENGTHS are concrete along every path (`List::with_len`), so the model's loops over CAP fold;
+//!   * everything that ends up in a storage KEY the call looks up is a constant (rule id, NextId, topic values): a
+//!     symbolic key component leaves every look-up to the solver and every length read back becomes symbolic;
+//!   * lists the library SORTS (signers) have fixed contents except the last stored and the new element;
+//!   * model feature `vecclone` (element-wise `Vec::clone`), CBMC `--max-field-sensitivity-array-size 160`.
 //!
 //! Sub-modules and their profiles (checks/reg_limits.py):
-//!   cti       lim_cti   cap21 vw24 traphook                               MAX_CLAIM_TOPICS = 15 (add_claim_topic, per-issuer lists)
-//!   ctxrules  lim_sa8   cap8 vw48 xdrdigest xw48 aw96 ew64 traphook       MAX_POLICIES = 5 (add_policy, add_context_rule)
-//!             lim_sa21  cap21 vw128 xdrdigest xw128 ew160 traphook        MAX_SIGNERS = 15 (add_signer, add_context_rule)
-//!   irs       lim_irs   (see the module)                                  MAX_COUNTRY_ENTRIES = 15, MAX_METADATA_ENTRIES = 10
+//!   cti       lim_cti   cap21 vw24 ns24 ew32 traphook vecclone                 MAX_CLAIM_TOPICS = 15 (add_claim_topic,
+//!                                                                              add_trusted_issuer, update_issuer_claim_topics)
+//!   irs       lim_cti                                                          MAX_METADATA_ENTRIES = 10 (validate_country_data)
+//!   ctxrules  lim_sa8   cap8 vw48 xdrdigest xw48 aw96 ew64 traphook vecclone   MAX_POLICIES = 5 (add_policy, add_context_rule)
+//!             lim_sa21  cap21 vw128 xdrdigest xw128 ew160 traphook vecclone    MAX_SIGNERS = 15 (add_signer, add_context_rule)
 
 // ================================================================================================ claim topics
 #[cfg(all(feature = "cap21", feature = "traphook", not(feature = "xdrdigest")))]
 pub mod cti {
     use soroban_sdk::model::{self, world, CAP};
     use soroban_sdk::{Address, Env, Flat};
-    use stellar_tokens::rwa::claim_topics_and_issuers::storage::{add_claim_topic, ClaimTopicsAndIssuersStorageKey as Key};
-    use stellar_tokens::rwa::claim_topics_and_issuers::{CLAIMS_EXTEND_AMOUNT, MAX_CLAIM_TOPICS};
+    use stellar_tokens::rwa::claim_topics_and_issuers::storage::{
+        add_claim_topic, add_trusted_issuer, update_issuer_claim_topics, ClaimTopicsAndIssuersStorageKey as Key,
+    };
+    use stellar_tokens::rwa::claim_topics_and_issuers::{CLAIMS_EXTEND_AMOUNT, ISSUERS_EXTEND_AMOUNT, MAX_CLAIM_TOPICS};
 
     use crate::registries::List;
     use crate::util::*;
@@ -98,6 +108,228 @@ pub mod cti {
         witness!(post.n == MAX_CLAIM_TOPICS, "limit.fifteenth_topic_accepted");
         end_checks(2);
     }
+
+    // -------------------------------------------------------------------------------------------- per-issuer topic lists
+    // `add_trusted_issuer` / `update_issuer_claim_topics` refuse a topic list of more than MAX_CLAIM_TOPICS topics.
+    // Universe: `n` registered topics with the FIXED values 100, 101, ... (topic values are only ever compared and used in
+    // storage keys: with symbolic topics every one of the n ClaimTopicIssuers(t) entries may match every look-up and nothing
+    // is decided during symbolic execution), each with its ClaimTopicIssuers entry (see declare_issuer_state); the list
+    // the call passes = the same n topics. Slots: 0 ClaimTopics, 1 TrustedIssuers, 2 IssuerClaimTopics(issuer), 3.. the
+    // ClaimTopicIssuers(100 + j).
+    const T0: u32 = 100;
+    const S_TI: usize = 1;
+    const S_ICT: usize = 2;
+    const S_TOPIC: usize = 3;
+    /// the issuer of the call: a fixed address (opaque: only compared and used in keys); other issuers are arbitrary
+    const ISSUER: u32 = 3;
+
+    fn fixed_topics(n: u32) -> List {
+        let mut l = List::empty();
+        l.n = n;
+        let mut k = 0;
+        while k < CAP {
+            if (k as u32) < n {
+                l.x[k] = T0 + k as u32;
+            }
+            k += 1;
+        }
+        l
+    }
+    /// `n` registered topics; `known`: the issuer is trusted already and holds the one topic 100 (update) / is new (add).
+    /// All list LENGTHS are concrete (the loops of the library over them keep concrete bounds): TrustedIssuers = one
+    /// arbitrary other issuer (+ the issuer when known); ClaimTopicIssuers(t) = one arbitrary other issuer for every
+    /// second topic, nobody for the others (+ the issuer for topic 100 when known)
+    fn declare_issuer_state(n: u32, known: bool) -> (List, Address) {
+        let topics = fixed_topics(n);
+        model::declare_val(S_CT, 0, &Key::ClaimTopics, true, &topics.to_u32_vec(), kani::any());
+        let issuer = Address::from_id(ISSUER);
+        let other: u32 = kani::any();
+        kani::assume(other != ISSUER);
+        let mut ti = List::empty();
+        ti.x[0] = other;
+        ti.x[1] = ISSUER;
+        ti.n = if known { 2 } else { 1 };
+        model::declare_val(S_TI, 0, &Key::TrustedIssuers, true, &ti.to_addr_vec(), kani::any());
+        let mut mine = List::empty();
+        mine.x[0] = T0;
+        mine.n = if known { 1 } else { 0 };
+        model::declare_val(S_ICT, 0, &Key::IssuerClaimTopics(issuer.clone()), known, &mine.to_u32_vec(), kani::any());
+        let mut j = 0;
+        while j < CAP {
+            if (j as u32) < n {
+                let mut l = List::empty();
+                if j % 2 == 0 {
+                    let o: u32 = kani::any();
+                    kani::assume(o != ISSUER);
+                    l.x[0] = o;
+                    l.n = 1;
+                }
+                if known && j == 0 {
+                    l.x[1] = ISSUER;
+                    l.n = 2;
+                }
+                model::declare_val(S_TOPIC + j, 0, &Key::ClaimTopicIssuers(T0 + j as u32), true, &l.to_addr_vec(), kani::any());
+            }
+            j += 1;
+        }
+        (topics, issuer)
+    }
+    fn issuer_is_listed_for_all(n: u32) -> bool {
+        let mut ok = true;
+        let mut j = 0;
+        while j < CAP {
+            if (j as u32) < n {
+                ok &= List::of_addr_slot(S_TOPIC + j).has(ISSUER);
+            }
+            j += 1;
+        }
+        ok
+    }
+    fn add_issuer_trap(code: u32) {
+        if code == E_MAX_TOPICS {
+            prop!(false, "C20.cti.add_trusted_issuer.claim_topics_limit_exact.reachable");
+        } else {
+            prop!(false, "C20.cti.add_trusted_issuer.full_topic_list_accepted");
+        }
+    }
+    fn update_issuer_trap(code: u32) {
+        if code == E_MAX_TOPICS {
+            prop!(false, "C20.cti.update_issuer_claim_topics.claim_topics_limit_exact.reachable");
+        } else {
+            prop!(false, "C20.cti.update_issuer_claim_topics.full_topic_list_accepted");
+        }
+    }
+
+    /// "only if": no issuer is ever added with MAX_CLAIM_TOPICS + 1 topics (even if that many topics were registered)
+    #[kani::proof]
+    #[kani::unwind(26)]
+    pub fn add_trusted_issuer_topics_at_limit() {
+        setup_world();
+        let e = Env::default();
+        let (topics, issuer) = declare_issuer_state(MAX_CLAIM_TOPICS + 1, false);
+        witness!(topics.n == MAX_CLAIM_TOPICS + 1, "limit.issuer_with_one_topic_too_many_is_tried");
+        add_trusted_issuer(&e, &issuer, &topics.to_u32_vec());
+        prop!(false, "C20.cti.add_trusted_issuer.claim_topics_limit_exact.not_exceeded");
+    }
+    /// "if": a new issuer for all MAX_CLAIM_TOPICS registered topics is accepted
+    #[kani::proof]
+    #[kani::unwind(26)]
+    pub fn add_trusted_issuer_topics_below_limit() {
+        setup_world();
+        let e = Env::default();
+        kani::assume(world().seq < u32::MAX - ISSUERS_EXTEND_AMOUNT);
+        let (topics, issuer) = declare_issuer_state(MAX_CLAIM_TOPICS, false);
+        witness!(topics.n == MAX_CLAIM_TOPICS, "limit.issuer_with_exactly_the_documented_maximum_is_tried");
+
+        unsafe { model::ON_TRAP = Some(add_issuer_trap) };
+        add_trusted_issuer(&e, &issuer, &topics.to_u32_vec());
+        unsafe { model::ON_TRAP = None };
+
+        let stored = List::of_u32_slot(S_ICT);
+        prop!(model::slot(S_ICT).present && stored.same(&topics), "C20.cti.add_trusted_issuer.accepted_topic_list_is_stored");
+        prop!(stored.n <= MAX_CLAIM_TOPICS, "C20.cti.add_trusted_issuer.claim_topics_limit_exact.not_exceeded_in_storage");
+        prop!(issuer_is_listed_for_all(MAX_CLAIM_TOPICS), "C20.cti.add_trusted_issuer.issuer_listed_under_every_topic");
+        witness!(List::of_addr_slot(S_TI).has(ISSUER), "limit.issuer_with_fifteen_topics_accepted");
+        end_checks(S_TOPIC + MAX_CLAIM_TOPICS as usize);
+    }
+    /// "only if": no issuer's list is ever replaced by MAX_CLAIM_TOPICS + 1 topics
+    #[kani::proof]
+    #[kani::unwind(26)]
+    pub fn update_issuer_topics_at_limit() {
+        setup_world();
+        let e = Env::default();
+        let (topics, issuer) = declare_issuer_state(MAX_CLAIM_TOPICS + 1, true);
+        witness!(topics.n == MAX_CLAIM_TOPICS + 1, "limit.update_to_one_topic_too_many_is_tried");
+        update_issuer_claim_topics(&e, &issuer, &topics.to_u32_vec());
+        prop!(false, "C20.cti.update_issuer_claim_topics.claim_topics_limit_exact.not_exceeded");
+    }
+    /// "if": a trusted issuer holding one topic is updated to all MAX_CLAIM_TOPICS registered topics
+    #[kani::proof]
+    #[kani::unwind(26)]
+    pub fn update_issuer_topics_below_limit() {
+        setup_world();
+        let e = Env::default();
+        kani::assume(world().seq < u32::MAX - ISSUERS_EXTEND_AMOUNT);
+        let (topics, issuer) = declare_issuer_state(MAX_CLAIM_TOPICS, true);
+        witness!(topics.n == MAX_CLAIM_TOPICS, "limit.update_to_exactly_the_documented_maximum_is_tried");
+
+        unsafe { model::ON_TRAP = Some(update_issuer_trap) };
+        update_issuer_claim_topics(&e, &issuer, &topics.to_u32_vec());
+        unsafe { model::ON_TRAP = None };
+
+        let stored = List::of_u32_slot(S_ICT);
+        prop!(model::slot(S_ICT).present && stored.same(&topics), "C20.cti.update_issuer_claim_topics.accepted_topic_list_is_stored");
+        prop!(stored.n <= MAX_CLAIM_TOPICS, "C20.cti.update_issuer_claim_topics.claim_topics_limit_exact.not_exceeded_in_storage");
+        prop!(issuer_is_listed_for_all(MAX_CLAIM_TOPICS), "C20.cti.update_issuer_claim_topics.issuer_listed_under_every_topic");
+        witness!(List::of_addr_slot(S_TOPIC + 14).has(ISSUER), "limit.update_to_fifteen_topics_accepted");
+        end_checks(S_TOPIC + MAX_CLAIM_TOPICS as usize);
+    }
+}
+
+// ================================================================================================ identity registry storage
+/// MAX_METADATA_ENTRIES = 10 is enforced in ONE place, `validate_country_data` (called by add_identity,
+/// add_country_data_entries, modify_country_data on every entry they store). The function is checked directly: a stored
+/// IdentityProfile whose vectors hold 11+ elements does not fit any model value (1 + 21 * 91 words at capacity 21).
+/// MAX_COUNTRY_ENTRIES = 15 is out of reach for the same reason (see checks/reg_limits.py).
+#[cfg(all(feature = "cap21", feature = "traphook", not(feature = "xdrdigest")))]
+pub mod irs {
+    use soroban_sdk::model::{self, world, CAP};
+    use soroban_sdk::{Arb, Env, Flat, Map, String, Symbol, Vec as SVec};
+    use stellar_tokens::rwa::identity_registry_storage::{
+        validate_country_data, CountryData, CountryRelation, IndividualCountryRelation, MAX_METADATA_ENTRIES,
+    };
+
+    use crate::util::*;
+
+    const E_TOO_MANY_ENTRIES: u32 = 326;
+
+    /// a country entry whose metadata map has exactly `n` (CONCRETE) entries: arbitrary pairwise different keys (sorted, as
+    /// the host keeps maps), arbitrary values of 0..16 bytes; any individual relation
+    fn entry_with_metadata(n: u32) -> CountryData {
+        let mut keys: SVec<Symbol> = SVec::new(&Env);
+        let mut vals: SVec<String> = SVec::new(&Env);
+        let mut k = 0;
+        while k < CAP {
+            if (k as u32) < n {
+                keys.push_back(Symbol::arb());
+                vals.push_back(String::arb());
+            }
+            k += 1;
+        }
+        let m = Map::assume_from_parts(keys, vals);
+        CountryData { country: CountryRelation::Individual(IndividualCountryRelation::arb()), metadata: Some(m) }
+    }
+    /// "only if": an entry with MAX_METADATA_ENTRIES + 1 metadata entries is never validated
+    #[kani::proof]
+    #[kani::unwind(26)]
+    pub fn validate_country_data_metadata_at_limit() {
+        setup_world();
+        let e = Env::default();
+        let cd = entry_with_metadata(MAX_METADATA_ENTRIES + 1);
+        witness!(cd.metadata.is_some(), "limit.entry_with_one_metadata_entry_too_many_is_tried");
+        validate_country_data(&e, &cd);
+        prop!(false, "C20.irs.validate_country_data.metadata_entries_limit_exact.not_exceeded");
+    }
+    fn metadata_trap(code: u32) {
+        if code == E_TOO_MANY_ENTRIES {
+            prop!(false, "C20.irs.validate_country_data.metadata_entries_limit_exact.reachable");
+        } else {
+            prop!(false, "C20.irs.validate_country_data.full_metadata_accepted");
+        }
+    }
+    /// "if": an entry with exactly MAX_METADATA_ENTRIES metadata entries (values within the string limit) is valid
+    #[kani::proof]
+    #[kani::unwind(26)]
+    pub fn validate_country_data_metadata_below_limit() {
+        setup_world();
+        let e = Env::default();
+        let cd = entry_with_metadata(MAX_METADATA_ENTRIES);
+        unsafe { model::ON_TRAP = Some(metadata_trap) };
+        validate_country_data(&e, &cd);
+        unsafe { model::ON_TRAP = None };
+        witness!(cd.metadata.as_ref().unwrap().len() == MAX_METADATA_ENTRIES, "limit.entry_with_ten_metadata_entries_accepted");
+        end_checks(0);
+    }
 }
 
 // ================================================================================================ smart-account context rules
@@ -119,7 +351,7 @@ pub mod ctxrules {
     /// the rule's id: a fixed number. It is opaque to the code under test (only ever part of a storage key; the step
     /// harnesses in context_rules.rs quantify over all ids); with a symbolic id no storage hit is decided during symbolic
     /// execution (the solver, not the simplifier, would learn that Policies(id) is the declared Policies(id)), every
-    /// vector length read back from storage becomes symbolic and the harness costs 30x more
+    /// vector length read back from storage becomes symbolic and the harness costs 10x more (add_policy: 380 s instead of 35 s)
     const RULE_ID: u32 = 7;
     const S_META: usize = 0;
     const S_SIGNERS: usize = 1;
@@ -213,9 +445,8 @@ pub mod ctxrules {
         }
         l
     }
-    /// slots 0..=2: Meta(id), Signers(id), Policies(id) of one rule: any id, any type, any 1-byte name, any expiry;
-    /// ARBITRARY pairwise different delegated signers (any address ids) and ARBITRARY pairwise different policies;
-    /// at least one of them (the registry's invariant)
+    /// slots 0..=2: Meta(id), Signers(id), Policies(id) of the rule RULE_ID: any type, any 1-byte name, any expiry; the given
+    /// delegated signers and policies (pairwise different by construction), at least one of them (the registry's invariant)
     pub fn declare_rule(present: bool, sig: List, pol: List) -> Rule {
         let id: u32 = RULE_ID;
         let ty = arb_rule_type();
@@ -348,16 +579,12 @@ pub mod ctxrules {
 
         prop!(false, "C20.ctxrules.add_signer.signers_limit_exact.not_exceeded");
     }
-    /// "only if": a rule that holds MAX_SIGNERS signers never gets one more (0 or 1 policies)
+    /// "only if": a rule that holds MAX_SIGNERS signers (and no policy) never gets one more
     #[cfg(feature = "cap21")]
     #[kani::proof]
     #[kani::unwind(130)]
     pub fn add_signer_signers_at_limit() {
-        if kani::any() {
-            add_signer_to_full_rule(0)
-        } else {
-            add_signer_to_full_rule(1)
-        }
+        add_signer_to_full_rule(0)
     }
 
     fn add_signer_trap(code: u32) {
@@ -390,226 +617,150 @@ pub mod ctxrules {
         witness!(post.len() == MAX_SIGNERS, "limit.fifteenth_signer_accepted");
         end(3, 1);
     }
-}
-#[cfg(all(feature = "xdrdigest", feature = "traphook", feature = "cap21"))]
-pub mod scratch {
-    use soroban_sdk::model::{self, world, CAP};
-    use soroban_sdk::{Address, Arb, Bytes, BytesN, Env, Flat, Map, String, Val, Vec as SVec};
-    use stellar_accounts::smart_account::{self as sa, MAX_POLICIES, Signer};
-    use crate::util::*;
-    use super::ctxrules::*;
-    fn run(n: u32) {
-        setup_world();
-        let e = Env::default();
-        kani::assume(world().seq <= u32::MAX - 40 * 17280);
-        let r = declare_rule(true, fixed_but_last(n), distinct_ids(1, 1));
-        let s = Signer::Delegated(Address::from_id(kani::any()));
-        sa::add_signer(&e, r.id, &s);
-        witness!(true, "x");
+
+    // -------------------------------------------------------------------------------------------- add_context_rule
+    /// the id the new rule gets: NextId is stored with this fixed value (see RULE_ID for why it is not symbolic)
+    const NEXT_ID: u32 = 7;
+    const A_NEXT: usize = 0;
+    const A_COUNT: usize = 1;
+    const A_IDS: usize = 2;
+    const A_META: usize = 3;
+    const A_SIGNERS: usize = 4;
+    const A_POLICIES: usize = 5;
+    const A_FP1: usize = 6;
+    const A_FP2: usize = 7;
+
+    /// NextId = 7; Count arbitrary (present or absent); Ids(Default) = 0..2 arbitrary older ids; whatever is stored under
+    /// the next id (it is overwritten); with `fingerprints`, two arbitrary fingerprint entries present or absent.
+    /// Returns the rule count.
+    fn declare_registry(fingerprints: bool) -> u32 {
+        model::declare_val(A_NEXT, 2, &Key::NextId, true, &NEXT_ID, 0);
+        let cp: bool = kani::any();
+        let c: u32 = kani::any();
+        model::declare_val(A_COUNT, 2, &Key::Count, cp, &c, 0);
+        let ids = List::arb(0, 2);
+        kani::assume(ids.all_below(NEXT_ID));
+        let lp: bool = kani::any();
+        kani::assume(lp || ids.n == 0);
+        model::declare_val(A_IDS, 0, &Key::Ids(ContextRuleType::Default), lp, &ids.to_u32_vec(), kani::any());
+        let old = Meta { name: arb_name(), context_type: ContextRuleType::Default, valid_until: None };
+        model::declare_val(A_META, 0, &Key::Meta(NEXT_ID), kani::any(), &old, kani::any());
+        model::declare_val(A_SIGNERS, 0, &Key::Signers(NEXT_ID), kani::any(), &SVec::<Signer>::new(&Env), kani::any());
+        model::declare_val(A_POLICIES, 0, &Key::Policies(NEXT_ID), kani::any(), &SVec::<Address>::new(&Env), kani::any());
+        if fingerprints {
+            let h1 = BytesN::<32>::arb();
+            let h2 = BytesN::<32>::arb();
+            kani::assume(h1 != h2);
+            model::declare_val(A_FP1, 0, &Key::Fingerprint(h1), kani::any(), &true, kani::any());
+            model::declare_val(A_FP2, 0, &Key::Fingerprint(h2), kani::any(), &true, kani::any());
+        }
+        if cp {
+            c
+        } else {
+            0
+        }
     }
-    #[kani::proof]
-    #[kani::unwind(130)]
-    pub fn p_s2() { run(2) }
-    #[kani::proof]
-    #[kani::unwind(130)]
-    pub fn p_s4() { run(4) }
-    #[kani::proof]
-    #[kani::unwind(130)]
-    pub fn p_s8() { run(8) }
-}
-#[cfg(all(feature = "xdrdigest", feature = "traphook", feature = "cap21"))]
-pub mod scratch2 {
-    use soroban_sdk::model::{self, world, CAP};
-    use soroban_sdk::{flat_lt, Address, Arb, Bytes, BytesN, Env, Flat, Map, String, Val, Vec as SVec};
-    use stellar_accounts::smart_account::{self as sa, MAX_POLICIES, Signer};
-    use crate::util::*;
-    use crate::registries::List;
-    use super::ctxrules::*;
-    fn heavy() {
-        let l = List::arb(0, 20);
-        kani::assume(l.nodup());
-        witness!(l.n == 3, "y");
-    }
-    fn fixed(n: u32) -> List {
-        let mut l = List::empty();
-        l.n = n;
+    /// the policy map with these (strictly increasing, hence pairwise different) addresses and arbitrary install parameters
+    fn policy_map(l: &List) -> Map<Address, Val> {
+        let mut vals = SVec::new(&Env);
         let mut k = 0;
-        while k < CAP { if (k as u32) < n { l.x[k] = 1000 + k as u32; } k += 1; }
-        l
-    }
-    #[kani::proof]
-    #[kani::unwind(130)]
-    pub fn q_lt() {
-        let v = delegated(&fixed(3));
-        if !flat_lt(&v.get(0).unwrap(), &v.get(1).unwrap()) { heavy(); }
-        witness!(true, "x");
-    }
-    #[kani::proof]
-    #[kani::unwind(130)]
-    pub fn q_lt0() {
-        let v = delegated(&fixed(3));
-        if !flat_lt(&v.get(0).unwrap(), &v.get(1).unwrap()) { kani::assume(false); }
-        witness!(true, "x");
-    }
-    #[kani::proof]
-    #[kani::unwind(130)]
-    pub fn q_lt1() {
-        let v = delegated(&fixed(3));
-        if !flat_lt(&v.get(0).unwrap(), &v.get(1).unwrap()) { kani::assume(false); }
-        heavy();
-        witness!(true, "x");
-    }
-    #[kani::proof]
-    #[kani::unwind(130)]
-    pub fn q_st0() {
-        setup_world();
-        let e = Env::default();
-        let r = declare_rule(true, fixed(3), distinct_ids(1, 1));
-        let rule = sa::get_context_rule(&e, r.id);
-        if !flat_lt(&rule.signers.get(0).unwrap(), &rule.signers.get(1).unwrap()) { kani::assume(false); }
-        witness!(true, "x");
-    }
-    #[kani::proof]
-    #[kani::unwind(130)]
-    pub fn q_st1() {
-        setup_world();
-        let e = Env::default();
-        let r = declare_rule(true, fixed_but_last(3), distinct_ids(1, 1));
-        let rule = sa::get_context_rule(&e, r.id);
-        if !flat_lt(&rule.signers.get(0).unwrap(), &rule.signers.get(1).unwrap()) { heavy(); }
-        witness!(true, "x");
-    }
-    #[kani::proof]
-    #[kani::unwind(130)]
-    pub fn q_st2() {
-        setup_world();
-        let e = Env::default();
-        let r = declare_rule(true, fixed(3), distinct_ids(1, 1));
-        let v = model::slot_val::<SVec<Signer>>(1);
-        if !flat_lt(&v.get(0).unwrap(), &v.get(1).unwrap()) { heavy(); }
-        witness!(true, "x");
-    }
-    fn sort_of(signers: &SVec<Signer>) -> SVec<Signer> {
-        let e = Env::default();
-        let mut sorted = SVec::new(&e);
-        for p in signers.iter() {
-            match sorted.binary_search(&p) {
-                Ok(_) => kani::assume(false),
-                Err(pos) => sorted.insert(pos, p),
+        while k < CAP {
+            if (k as u32) < l.n {
+                vals.push_back(Val::arb());
             }
+            k += 1;
         }
-        sorted
+        Map::assume_from_parts(l.to_addr_vec(), vals)
     }
-    #[kani::proof]
-    #[kani::unwind(130)]
-    pub fn q_so1() {
-        let v = delegated(&fixed(4));
-        let s = sort_of(&v);
-        witness!(s.len() == 4, "x");
+    /// `n` arbitrary ids, length CONCRETE (no distinctness assumed)
+    fn any_ids(n: u32) -> List {
+        List::arb(n, n).with_len(n)
     }
-    #[kani::proof]
-    #[kani::unwind(130)]
-    pub fn q_so2() {
+    fn add_rule_trap(code: u32) {
+        if code == E_TOO_MANY_SIGNERS {
+            prop!(false, "C20.ctxrules.add_context_rule.signers_limit_exact.reachable");
+        } else if code == E_TOO_MANY_POLICIES {
+            prop!(false, "C20.ctxrules.add_context_rule.policies_limit_exact.reachable");
+        } else {
+            prop!(false, "C20.ctxrules.add_context_rule.new_rule_accepted_below_the_limits");
+        }
+    }
+    /// a new rule of type Default with these signers and policies, from any registry state: the call as the harnesses make it
+    fn call_add_rule(e: &Env, sig: &List, pol: &List, valid_until: Option<u32>) -> sa::ContextRule {
+        sa::add_context_rule(e, &ContextRuleType::Default, &arb_name(), valid_until, &delegated(sig), &policy_map(pol))
+    }
+    /// must-succeed pre-state: room for one more rule, expiry not in the past, no equal rule on record, installs return
+    fn add_rule_must_succeed(sig: &List, pol: &List) {
         setup_world();
         let e = Env::default();
-        let r = declare_rule(true, fixed(4), distinct_ids(1, 1));
-        let rule = sa::get_context_rule(&e, r.id);
-        let s = sort_of(&rule.signers);
-        witness!(s.len() == 4, "x");
+        let count = declare_registry(false);
+        kani::assume(count < sa::MAX_CONTEXT_RULES);
+        let valid_until = Option::<u32>::arb();
+        kani::assume(match valid_until { None => true, Some(v) => v >= world().seq });
+        pin_all_calls_return();
+
+        unsafe { model::ON_TRAP = Some(add_rule_trap) };
+        let got = call_add_rule(&e, sig, pol, valid_until);
+        unsafe { model::ON_TRAP = None };
+
+        prop!(got.id == NEXT_ID && got.signers.len() == sig.n && got.policies.len() == pol.n, "C20.ctxrules.add_context_rule.accepted_rule_is_returned");
+        prop!(delegated_ids_of_slot(A_SIGNERS).same(sig), "C20.ctxrules.add_context_rule.accepted_signers_are_stored");
+        prop!(List::of_addr_slot(A_POLICIES).same(pol), "C20.ctxrules.add_context_rule.accepted_policies_are_stored");
+        prop!(model::n_calls() == pol.n, "C20.ctxrules.add_context_rule.each_policy_installed_once");
+        prop!(sig.n <= MAX_SIGNERS, "C20.ctxrules.add_context_rule.signers_limit_exact.not_exceeded_in_storage");
+        prop!(pol.n <= MAX_POLICIES, "C20.ctxrules.add_context_rule.policies_limit_exact.not_exceeded_in_storage");
+        end(6, 1);
     }
+
+    /// "only if" (MAX_POLICIES): a rule with MAX_POLICIES + 1 policies is never created (0 or 1 signers; any registry state)
+    #[cfg(all(feature = "cap8", not(feature = "cap21")))]
     #[kani::proof]
-    #[kani::unwind(130)]
-    pub fn q_so3() {
+    #[kani::unwind(98)]
+    pub fn add_context_rule_policies_at_limit() {
         setup_world();
         let e = Env::default();
-        let r = declare_rule(true, fixed(4), distinct_ids(1, 1));
-        let rule = sa::get_context_rule(&e, r.id);
-        let mut signers = rule.signers.clone();
-        let n = Signer::Delegated(Address::from_id(kani::any()));
-        if signers.contains(&n) { kani::assume(false); }
-        signers.push_back(n.clone());
-        let s = sort_of(&signers);
-        witness!(s.len() == 5, "x");
-    }
-    fn sg(x: u32) -> Signer { Signer::Delegated(Address::from_id(x)) }
-    #[kani::proof]
-    #[kani::unwind(130)]
-    pub fn q_a1() {
-        let mut v: SVec<Signer> = SVec::new(&Env);
-        v.insert(0, sg(1000));
-        v.insert(1, sg(1001));
-        if v.binary_search(&sg(1002)) != Err(2) { heavy(); }
-        witness!(true, "x");
-    }
-    #[kani::proof]
-    #[kani::unwind(130)]
-    pub fn q_a2() {
-        let mut v: SVec<Signer> = SVec::new(&Env);
-        let r1 = v.binary_search(&sg(1000));
-        if let Err(p) = r1 { v.insert(p, sg(1000)); }
-        let r2 = v.binary_search(&sg(1001));
-        if let Err(p) = r2 { v.insert(p, sg(1001)); }
-        if v.binary_search(&sg(1002)) != Err(2) { heavy(); }
-        witness!(true, "x");
-    }
-    #[kani::proof]
-    #[kani::unwind(130)]
-    pub fn q_a3() {
-        let src = delegated(&fixed(2));
-        let mut v: SVec<Signer> = SVec::new(&Env);
-        for p in src.iter() {
-            match v.binary_search(&p) {
-                Ok(_) => kani::assume(false),
-                Err(pos) => v.insert(pos, p),
-            }
+        declare_registry(true);
+        let pol = any_ids(MAX_POLICIES + 1);
+        witness!(pol.nodup(), "limit.rule_with_one_policy_too_many_is_tried");
+        if kani::any() {
+            call_add_rule(&e, &any_ids(0), &pol, Option::<u32>::arb());
+        } else {
+            call_add_rule(&e, &any_ids(1), &pol, Option::<u32>::arb());
         }
-        if v.binary_search(&sg(1002)) != Err(2) { heavy(); }
-        witness!(true, "x");
+        prop!(false, "C20.ctxrules.add_context_rule.policies_limit_exact.not_exceeded");
     }
+    /// "if" (MAX_POLICIES): a fresh rule with one signer and exactly MAX_POLICIES policies is accepted
+    #[cfg(all(feature = "cap8", not(feature = "cap21")))]
     #[kani::proof]
-    #[kani::unwind(130)]
-    pub fn q_b1() {
-        let src = delegated(&fixed(2));
-        let mut it = src.iter();
-        let _a = it.next();
-        let _b = it.next();
-        let c = it.next();
-        if c.is_some() { heavy(); }
-        witness!(true, "x");
+    #[kani::unwind(98)]
+    pub fn add_context_rule_policies_below_limit() {
+        let pol = any_ids(MAX_POLICIES);
+        witness!(pol.n == MAX_POLICIES, "limit.rule_with_exactly_the_documented_maximum_is_tried");
+        add_rule_must_succeed(&any_ids(1), &pol);
+        witness!(List::of_addr_slot(A_POLICIES).n == MAX_POLICIES, "limit.rule_with_five_policies_accepted");
     }
+
+    /// "only if" (MAX_SIGNERS): a rule with MAX_SIGNERS + 1 signers is never created (no policies; any registry state)
+    #[cfg(feature = "cap21")]
     #[kani::proof]
-    #[kani::unwind(130)]
-    pub fn q_b2() {
-        let src = delegated(&fixed(2));
-        let mut it = src.iter();
-        let a = it.next();
-        if a.is_none() { heavy(); }
-        witness!(true, "x");
+    #[kani::unwind(170)]
+    pub fn add_context_rule_signers_at_limit() {
+        setup_world();
+        let e = Env::default();
+        declare_registry(true);
+        let sig = fixed_but_last(MAX_SIGNERS + 1);
+        witness!(sig.nodup(), "limit.rule_with_one_signer_too_many_is_tried");
+        call_add_rule(&e, &sig, &any_ids(0), Option::<u32>::arb());
+        prop!(false, "C20.ctxrules.add_context_rule.signers_limit_exact.not_exceeded");
     }
+    /// "if" (MAX_SIGNERS): a fresh rule with exactly MAX_SIGNERS signers and no policy is accepted
+    #[cfg(feature = "cap21")]
     #[kani::proof]
-    #[kani::unwind(130)]
-    pub fn q_b3() {
-        let src = delegated(&fixed(2));
-        let a = src.get(0);
-        let c = src.get(2);
-        if a.is_none() || c.is_some() { heavy(); }
-        witness!(true, "x");
-    }
-    #[kani::proof]
-    #[kani::unwind(130)]
-    pub fn q_bs() {
-        let v = delegated(&fixed(3));
-        let s = Signer::Delegated(Address::from_id(1001));
-        if v.binary_search(&s) != Ok(1) { heavy(); }
-        witness!(true, "x");
-    }
-    #[kani::proof]
-    #[kani::unwind(130)]
-    pub fn q_ins() {
-        let mut v = delegated(&fixed(3));
-        let s = Signer::Delegated(Address::from_id(5));
-        v.insert(0, s);
-        if !flat_lt(&v.get(0).unwrap(), &v.get(1).unwrap()) { heavy(); }
-        witness!(true, "x");
+    #[kani::unwind(170)]
+    pub fn add_context_rule_signers_below_limit() {
+        let sig = fixed_but_last(MAX_SIGNERS);
+        witness!(sig.n == MAX_SIGNERS, "limit.rule_with_exactly_the_documented_maximum_is_tried");
+        add_rule_must_succeed(&sig, &any_ids(0));
+        witness!(delegated_ids_of_slot(A_SIGNERS).n == MAX_SIGNERS, "limit.rule_with_fifteen_signers_accepted");
     }
 }
